@@ -54,7 +54,7 @@ def run(R):
     import dreye
     quick = R.tier == "quick"
     R.rule = ("histories over the alphabet {register_system, register_bounds, register_adaptation, register_baseline, "
-              "register_background_adaptation(add/replace), register_system_adaptation(add/replace), register_targets} with two "
+              "register_background_adaptation(add/replace), register_system_adaptation(add/replace), register_targets, fit() of the registered targets} with two "
               "argument choices each (register_targets: four -- two target sets without importance weights, one with per-filter "
               "weights W, one with per-sample-and-filter weights W; the target sets hold targets outside the gamut, so the "
               "weighting decides the fit); default or per-filter constructor weights w: exhaustive up to length %d, random of "
@@ -87,7 +87,7 @@ def run(R):
     TGT = [(B1, None), (B2, None), (B2, Wf), (B1, W2)]
     reg = {}   # what the harness registered last (targets and their weights), for the twin
     ALPHA = [("sys", 0), ("sys", 1), ("bnd", 0), ("bnd", 1), ("adp", 0), ("adp", 1), ("bas", 0), ("bas", 1),
-             ("bga", 0), ("bga", 1), ("sya", 0), ("sya", 1), ("tgt", 0), ("tgt", 1), ("tgt", 2), ("tgt", 3)]
+             ("bga", 0), ("bga", 1), ("sya", 0), ("sya", 1), ("tgt", 0), ("tgt", 1), ("tgt", 2), ("tgt", 3), ("fit", 0)]
 
     def ns_of(est):
         return est.A.shape[1] if hasattr(est, "A") else 4
@@ -125,9 +125,15 @@ def run(R):
                 est.register_targets(B.copy())
             else:
                 est.register_targets(B.copy(), W=W.copy())
-            reg["tgt"] = (B, W)
+            reg["tgt"] = (B, W); reg.pop("work", None)
             # the state machine stores the targets and the fitting weights (given W, or the constructor's w when W is not given)
             return "tgt " + ms(B) + (" none" if W is None else (" vec " + vs(W)) if W.ndim == 1 else (" mat " + ms(W)))
+        if op == "fit":
+            # fit() of the registered targets: a state-changing call (it stores the fitted capture in the working copy self.B that
+            # later argument-less fits / gamut tests use). The engine's answer is handed to the model as the op's parameter.
+            est.fit()
+            reg["work"] = np.array(est.B, dtype=float, copy=True)
+            return "fit " + ms(reg["work"])
         raise ValueError(op)
 
     def impl_digest(est):
@@ -141,6 +147,7 @@ def run(R):
         d["rc"] = est.relative_capture(psig)
         d["targets"] = np.array(est.target_B, copy=True) if hasattr(est, "target_B") else None
         d["W"] = np.array(est.W, copy=True)
+        d["work"] = np.array(est.B, dtype=float, copy=True) if hasattr(est, "B") else None
         return d
 
     def query_bundle(est, rng):
@@ -195,6 +202,9 @@ def run(R):
         if "tgt" in reg:
             B, W = reg["tgt"]
             t.register_targets(B.copy(), W=(None if W is None else W.copy()))
+            if "work" in reg:
+                # a fit() after the last register_targets: the working copy is part of the state (model: workB)
+                t.B = reg["work"].copy()
         return t
 
     histories = []
@@ -235,13 +245,13 @@ def run(R):
                         a, b = before[key], after[key]
                         if (a is None) != (b is None) or (a is not None and not np.array_equal(a, b)):
                             problems.append("a read-only query changed `%s`" % key)
-                if op in ("bnd", "sya", "tgt") and not hasattr(est, "A"):
+                if (op in ("bnd", "sya", "tgt") and not hasattr(est, "A")) or (op == "fit" and not (hasattr(est, "A") and hasattr(est, "B"))):
                     # the call asserts in the code; check that it does and leaves the state alone
                     st, o = call(apply_impl, est, op, arg)
                     if st != "assertion":
                         problems.append("%s without a registered system did not assert (%s)" % (op, st))
                     # protocol text for the model (it answers `assert`)
-                    dummy = {"bnd": "bnd 0 0", "sya": "sya %s 1 0" % vs(x1), "tgt": "tgt " + ms(B1) + " none"}[op]
+                    dummy = {"bnd": "bnd 0 0", "sya": "sya %s 1 0" % vs(x1), "tgt": "tgt " + ms(B1) + " none", "fit": "fit " + ms(B1)}[op]
                     texts.append(dummy); digests.append(("assert", None))
                     continue
                 texts.append(apply_impl(est, op, arg))
@@ -280,7 +290,7 @@ def run(R):
                 if toks[0] != tag:
                     mismatch = "step %d: model says %s, code %s" % (si, toks[0], tag)
                 continue
-            A_m, K_m, base_m, bnds_m, sc_m, src_m, rc_m, ins_m, tg_m, w_m = parse_digest(toks[1:])
+            A_m, K_m, base_m, bnds_m, sc_m, src_m, rc_m, ins_m, tg_m, w_m, wk_m = parse_digest(toks[1:])
 
             def cmp_vec(name, impl, model, scale=None):
                 impl = np.asarray(impl, dtype=float).ravel()
@@ -317,6 +327,10 @@ def run(R):
                 checks.append("targets registered: code %s, model %s" % (d["targets"] is not None, tg_m[0] != "notreg"))
             elif d["targets"] is not None:
                 checks.append(cmp_vec("registered targets", d["targets"], tg_m[1]))
+            if (d["work"] is None) != (wk_m[0] == "notreg"):
+                checks.append("working copy of the targets present: code %s, model %s" % (d["work"] is not None, wk_m[0] != "notreg"))
+            elif d["work"] is not None:
+                checks.append(cmp_vec("working copy self.B (what an argument-less fit / gamut test uses)", d["work"], wk_m[1]))
             Wi = np.asarray(d["W"], dtype=float)
             if (Wi.ndim == 2) != (w_m[0] == "wmat"):
                 checks.append("fitting weights W have %d dims, model says %s" % (Wi.ndim, w_m[0]))
